@@ -46,6 +46,7 @@ import (
 	"github.com/lightningnetwork/lnd/kvdb"
 	"github.com/lightningnetwork/lnd/lnpeer"
 	"github.com/lightningnetwork/lnd/lntest/mock"
+	"github.com/lightningnetwork/lnd/lntypes"
 	"github.com/lightningnetwork/lnd/lnwire"
 	"github.com/lightningnetwork/lnd/ticker"
 	"pgregory.net/rapid"
@@ -83,6 +84,51 @@ func (l *c07Link) handleSwitchPacket(pkt *htlcPacket) error {
 
 var _ ChannelLink = (*c07Link)(nil)
 
+// c07Notifier counts the final settle/fail notifications of locally
+// initiated payments (the last step of Switch.handleLocalResponse, after the
+// result was stored and the circuit torn down).
+type c07Notifier struct {
+	mockHTLCNotifier
+
+	mu    sync.Mutex
+	local int
+	sig   chan struct{}
+}
+
+func (n *c07Notifier) event(key HtlcKey) {
+	if key.IncomingCircuit.ChanID.ToUint64() != 0 {
+		return
+	}
+	n.mu.Lock()
+	n.local++
+	n.mu.Unlock()
+	select {
+	case n.sig <- struct{}{}:
+	default:
+	}
+}
+
+func (n *c07Notifier) NotifyForwardingFailEvent(key HtlcKey,
+	_ HtlcEventType) {
+
+	n.event(key)
+}
+
+func (n *c07Notifier) NotifySettleEvent(key HtlcKey, _ lntypes.Preimage,
+	_ HtlcEventType) {
+
+	n.event(key)
+}
+
+func (n *c07Notifier) count() int {
+	n.mu.Lock()
+	defer n.mu.Unlock()
+
+	return n.local
+}
+
+var errC07Inconclusive = errors.New("c07: inconclusive")
+
 // c07Htlc is the model of one incoming HTLC.
 type c07Htlc struct {
 	in     CircuitKey
@@ -116,6 +162,11 @@ type c07World struct {
 	sw    *Switch
 	links [c07NumChans + 1]*c07Link
 	rec   *c07Recorder
+	ntf   *c07Notifier
+
+	// locally initiated payments
+	nextLocal uint64
+	localDone int // results that must have been delivered so far
 
 	epoch int
 	ls    [c07NumChans + 1]*c07LinkState
@@ -202,7 +253,7 @@ func (w *c07World) startSwitch() error {
 		FwdEventTicker:         ticker.NewForce(DefaultFwdEventInterval),
 		LogEventTicker:         ticker.NewForce(DefaultLogInterval),
 		AckEventTicker:         ticker.NewForce(DefaultAckInterval),
-		HtlcNotifier:           &mockHTLCNotifier{},
+		HtlcNotifier:           w.ntf,
 		Clock:                  clock.NewDefaultClock(),
 		MailboxDeliveryTimeout: time.Hour,
 		MaxFeeExposure:         DefaultMaxFeeExposure,
@@ -247,6 +298,13 @@ func (w *c07World) stopSwitch() error {
 			return err
 		}
 		w.sw = nil
+
+		// Stop waited for every handleLocalResponse goroutine.
+		if got := w.ntf.count(); got != w.localDone {
+			return fmt.Errorf("AT-MOST-ONCE: %d results delivered "+
+				"for locally initiated HTLCs, expected %d", got,
+				w.localDone)
+		}
 	}
 	if w.cdb != nil {
 		if err := w.cdb.Close(); err != nil {
@@ -313,6 +371,19 @@ func (w *c07World) boxResps(c int) []*htlcPacket {
 type c07Expect struct {
 	handed []string
 	resp   []string // inKey of responses entering the incoming mailbox
+	local  int      // results of locally initiated HTLCs
+}
+
+// resolveLocal predicts that the response completes a locally initiated
+// payment: result stored, circuit torn down, one notification.
+func (w *c07World) resolveLocal(h *c07Htlc, exp *c07Expect) {
+	exp.local++
+	if h.out != nil {
+		w.resolvedOut = append(w.resolvedOut, *h.out)
+	}
+	h.exists, h.out, h.closed = false, nil, false
+	h.resolved = true
+	w.label("local:resolved")
 }
 
 func (e *c07Expect) hand(h *c07Htlc) {
@@ -335,6 +406,18 @@ func (e *c07Expect) respond(h *c07Htlc) {
 func (w *c07World) settle(exp *c07Expect) error {
 	if err := w.barrier(); err != nil {
 		return err
+	}
+
+	// Results of local payments are produced by goroutines the switch
+	// spawns; each ends with a notification.
+	w.localDone += exp.local
+	deadline := time.After(60 * time.Second)
+	for w.ntf.count() < w.localDone {
+		select {
+		case <-w.ntf.sig:
+		case <-deadline:
+			return errC07Inconclusive
+		}
 	}
 
 	w.rec.mu.Lock()
@@ -611,6 +694,82 @@ func (w *c07World) actForward(t *rapid.T) error {
 	return w.settle(exp)
 }
 
+// actSendLocal: the router sends a payment attempt, or re-sends one whose
+// result it does not know yet (same attempt id).
+func (w *c07World) actSendLocal(t *rapid.T) error {
+	var h *c07Htlc
+	var cand []*c07Htlc
+	for _, in := range w.order {
+		x := w.htlcs[in]
+		if in.ChanID.ToUint64() == 0 && !x.resolved {
+			cand = append(cand, x)
+		}
+	}
+	if len(cand) > 0 && rapid.IntRange(0, 9).Draw(t, "resend") < 4 {
+		h = rapid.SampledFrom(cand).Draw(t, "resendOf")
+	} else {
+		target := uint64(rapid.IntRange(1, c07NumChans).Draw(t, "firstHop"))
+		if rapid.IntRange(0, 11).Draw(t, "unknownHop") == 6 {
+			target = c07UnknownChan
+		}
+		h = &c07Htlc{
+			in:     c07Key(0, w.nextLocal),
+			target: target,
+			hash:   c07Hashes[rapid.IntRange(0, 2).Draw(t, "hash")],
+		}
+		w.nextLocal++
+		w.htlcs[h.in] = h
+		w.order = append(w.order, h.in)
+	}
+
+	exp := &c07Expect{}
+	var want error
+	v := ""
+	switch {
+	case h.target == c07UnknownChan || !w.ls[h.target].eligible:
+		// rejected before a circuit is created
+		v = "local:link_error"
+		if !h.exists {
+			// the router gives up on this attempt id
+			h.resolved = true
+		}
+
+	case !h.exists:
+		v = "local:handed"
+		h.exists = true
+		h.addEpoch = w.epoch
+		exp.hand(h)
+
+	case h.out != nil || h.addEpoch == w.epoch:
+		v = "local:duplicate"
+		want = ErrDuplicateAdd
+
+	default:
+		v = "local:failed_after_restart"
+		want = ErrLocalAddFailed
+	}
+	w.label(v)
+	w.logf("sendLocal(%s>%d)=%s", c07KeyStr(h.in), h.target, v)
+
+	err := w.sw.SendHTLC(
+		lnwire.NewShortChanIDFromInt(h.target), h.in.HtlcID,
+		&lnwire.UpdateAddHTLC{PaymentHash: h.hash, Amount: 1},
+	)
+	switch {
+	case v == "local:link_error":
+		var le *LinkError
+		if !errors.As(err, &le) {
+			return fmt.Errorf("SendHTLC: err=%v, expected a link "+
+				"error", err)
+		}
+	case !errors.Is(err, want) || (want == nil && err != nil):
+		return fmt.Errorf("SendHTLC(%s): err=%v, expected %v",
+			c07KeyStr(h.in), err, want)
+	}
+
+	return w.settle(exp)
+}
+
 // actReplayAll: a restarted incoming link re-forwards every add of its
 // forwarding packages that was not yet answered durably.
 func (w *c07World) actReplayAll(t *rapid.T) error {
@@ -680,7 +839,11 @@ func (w *c07World) actOutProcess(t *rapid.T) error {
 			// channel.AddHTLC failed: fail back through the switch
 			w.mailbox(c).FailAdd(pkt)
 			h.inOutBox = false
-			if !h.closed {
+			switch {
+			case h.closed:
+			case h.in.ChanID.ToUint64() == 0:
+				w.resolveLocal(h, exp)
+			default:
 				h.closed = true
 				exp.respond(h)
 			}
@@ -865,6 +1028,9 @@ func (w *c07World) actRespond(t *rapid.T) error {
 			}
 		case h.closed:
 			v = "dup_closing"
+		case h.in.ChanID.ToUint64() == 0:
+			v = "first_local"
+			w.resolveLocal(h, exp)
 		default:
 			v = "first"
 			h.closed = true
@@ -1014,6 +1180,7 @@ func TestVerifC07Switch(t *testing.T) {
 		w := &c07World{
 			dir:      dir,
 			rec:      &c07Recorder{},
+			ntf:      &c07Notifier{sig: make(chan struct{}, 1)},
 			htlcs:    make(map[CircuitKey]*c07Htlc),
 			seenResp: make(map[*htlcPacket]bool),
 			labels:   make(map[string]bool),
@@ -1034,8 +1201,10 @@ func TestVerifC07Switch(t *testing.T) {
 			kind := rapid.IntRange(0, 99).Draw(t, "action")
 			var err error
 			switch {
-			case kind < 22:
+			case kind < 16:
 				err = w.actForward(t)
+			case kind < 24:
+				err = w.actSendLocal(t)
 			case kind < 44:
 				err = w.actOutProcess(t)
 			case kind < 50:
@@ -1053,10 +1222,20 @@ func TestVerifC07Switch(t *testing.T) {
 			default:
 				err = w.actSwitchRestart(t)
 			}
+			if errors.Is(err, errC07Inconclusive) {
+				st.Count("inconclusive", 1)
+				t.Skip("local payment result not seen in 60s")
+			}
 			if err != nil {
 				t.Fatalf("step %d: %v\nops:\n  %s", i, err,
 					strings.Join(w.ops, "\n  "))
 			}
+		}
+		// Stopping waits for all goroutines of the switch and checks
+		// the number of local payment results.
+		if err := w.stopSwitch(); err != nil {
+			t.Fatalf("final stop: %v\nops:\n  %s", err,
+				strings.Join(w.ops, "\n  "))
 		}
 
 		// Non-trivial: a duplicate forward or duplicate response was
@@ -1066,7 +1245,9 @@ func TestVerifC07Switch(t *testing.T) {
 			w.labels["dup:drop_inmem"] ||
 			w.labels["dup:fail_after_restart"] ||
 			w.labels["resp:dup_closing"] ||
-			w.labels["resp:after_resolved"]
+			w.labels["resp:after_resolved"] ||
+			w.labels["local:duplicate"] ||
+			w.labels["local:failed_after_restart"]
 
 		labels := make([]string, 0, len(w.labels))
 		for l := range w.labels {
